@@ -7,5 +7,5 @@ CONSTANTS
   Tofs = {51, 71, 72, 93}
   TofN = 4
   TofR = 2
-INVARIANTS InvGeom InvG2 InvRefuse InvCommute InvSubset InvConserve InvMapDef
+INVARIANTS InvGeom InvG2 InvRefuse InvCommute InvSubset InvConserve InvNest InvTofK InvMapDef
 CHECK_DEADLOCK FALSE
